@@ -16,7 +16,7 @@ for l in open('/verif/properties.jsonl'):
     d = json.loads(l)
     props[d['id']] = d
 
-TEMPLATE = open('/verif/scripts/wave_prompt.md').read()
+TEMPLATE = open('/verif/scripts/' + os.environ.get('WAVE_TEMPLATE', 'wave_prompt.md')).read()
 
 for pid in ids:
     wt = f"/tmp/wt/{pid}{suffix}"
@@ -25,7 +25,8 @@ for pid in ids:
         subprocess.check_call(["git", "-C", "/repo", "worktree", "add", "--detach", wt, "HEAD"], stdout=subprocess.DEVNULL, stderr=subprocess.DEVNULL)
     os.makedirs(out, exist_ok=True)
     earlier = []
-    for m in sorted(glob.glob(f"/verif/seeded/{pid}-*/meta.json")):
+    src_dir = os.environ.get("WAVE_EARLIER_DIR", "seeded")
+    for m in sorted(glob.glob(f"/verif/{src_dir}/{pid}-*/meta.json")):
         what = json.load(open(m))["what"]
         earlier.append(what.split(":")[0][:200] if len(what) > 200 else what)
     el = "; ".join(f"({i+1}) {w}" for i, w in enumerate(earlier))
